@@ -107,3 +107,12 @@ Proof.
     change (b :: (l' ++ [x])%list) with ((b :: l') ++ [x])%list.
     rewrite IH by discriminate. rewrite join_cons_cons. now rewrite !app_assoc_s.
 Qed.
+
+Fixpoint str_drop_last (s : string) : string :=
+  match s with
+  | EmptyString => ""
+  | String a EmptyString => ""
+  | String a rest => String a (str_drop_last rest)
+  end.
+(* s[1:-1] *)
+Definition middle_str (s : string) : string := str_drop_last (drop1 s).
